@@ -85,6 +85,20 @@ def main():
                 continue
             cov['obligations'] += r['obligations']
             cov['discharged'] += r['discharged']
+            # functions that could not be brought under contract on this tree were assumed (degraded); the property is undecided
+            # if one of them is a function it depends on: named by the unit's function filter, or called by such a function
+            if r.get('degraded'):
+                entry['degraded_to_assumed_contract'] = r['degraded']
+                texts = r.get('fn_texts', {})
+                def _rel(name):
+                    return rel_fns is None or any(name.endswith(x) for x in rel_fns)
+                rel_texts = [t for n, t in texts.items() if _rel(n)]
+                for dg in r['degraded']:
+                    simple = dg['function'].split(' :: ')[-1].split()[-1]
+                    import re as _re
+                    called = any(_re.search(r'[\.:]\s*%s\s*(::<[^>]*>)?\s*\(' % _re.escape(simple), t) for t in rel_texts)
+                    if _rel(dg['function']) or called:
+                        undecided.append('vx/%s: %s cannot be brought under its contract on this tree (%s)' % (r['unit'], dg['function'], dg['reason'][:200]))
             for f in r['failures']:
                 labs = f['labels']
                 lab_props = {x.split('.')[0] for x in labs}
@@ -137,6 +151,41 @@ def main():
     cov['bounded_clauses'] = cfg.get('bounded', [])
     cov['trusted_base'] += cfg.get('trusted', []) + cfg.get('trusted_extra', [])
     ev['assumptions'] = cfg.get('assumptions', []) + props.ASSUMPTIONS_COMMON
+    # ---------------- corroboration of proof failures (a failed proof is not a refutation)
+    # A Kani failure is a concrete counterexample of the model checker and a BX violation is a failing input replayed on the
+    # real code: both are refutations.  A Verus failure is an obligation that is no longer discharged.  Policy:
+    #   * if nothing else speaks against the tree, the bounded stand-in is escalated once to its thorough tier (fresh seed);
+    #     a witness found there turns the failure into a violation with a replayable input;
+    #   * still no witness: failures of SAFETY obligations (arithmetic overflow, index/slice bounds, unreachable!/panic!
+    #     reached, unwrap of None/Err, termination) stay violations and are reported with `no-failing-input-found` -
+    #     this is where deduction reaches and sampling does not;
+    #   * failures of FUNCTIONAL obligations (postcondition, invariant, assertion, precondition of a contracted callee) whose
+    #     behaviour the stand-in exercised N times without finding a failing input are reported as UNDECIDED (exit 2):
+    #     behaviour-preserving refactorings lose proof hints far more often than realistic defects escape the stand-in.
+    SAFETY_MARKS = ('arithmetic underflow/overflow', 'index out of bounds', 'unreached', 'decreases not satisfied', 'unwrap', 'division by zero',
+                    'possible bit shift', 'cannot show termination', 'slice index')
+    def _is_safety(v):
+        return any(m in (v.get('what') or '') for m in SAFETY_MARKS)
+    def _unknown(v):
+        return not any(k['key'] == v.get('key') for k in known)
+    fresh = [v for v in violations if _unknown(v)]
+    if fresh and all(v['engine'] == 'vx' for v in fresh) and 'bx' in only and cfg.get('bx'):
+        esc = bxrun.run_modes(pid, cfg['bx'], tier='thorough', seed=seed + 1000)
+        cov['engines']['bx_escalation'] = {'why': 'only proof obligations failed; looking for a failing input', 'report': esc['report'], 'evaluations': esc['evaluations']}
+        bx_eval += esc['evaluations']
+        cov['evaluations'] = bx_eval
+        violations += esc['violations']
+        undecided += esc['undecided']
+        if not [v for v in esc['violations'] if _unknown(v)]:
+            kept = []
+            for v in violations:
+                if v['engine'] == 'vx' and _unknown(v) and not _is_safety(v):
+                    undecided.append('vx: functional obligation no longer discharged, no failing input found by %d bounded evaluations (quick and thorough tier): %s'
+                                     % (bx_eval, v['what'][:300]))
+                    cov.setdefault('uncorroborated_proof_failures', []).append({'obligation': v.get('obligation'), 'what': v.get('what'), 'detail': (v.get('detail') or '')[:1500]})
+                else:
+                    kept.append(v)
+            violations = kept
     # ---------------- verdict
     out_lines = []
     real = []
